@@ -535,7 +535,9 @@ public:
 
     Matrix eigenvectors()
     {
-        return m_evectors;
+        // The n x nev block of approximate eigenvectors (m_evectors only holds the
+        // coefficients of the last Rayleigh-Ritz step)
+        return Matrix(X);
     }
 
     Matrix residuals()
